@@ -74,7 +74,17 @@ def has(a, kinds):
     return a[0] in kinds or any(isinstance(x, tuple) and has(x, kinds) for x in a[1:])
 
 
-def show(a, ty, nl_alt=False, gnu_ops=False):
+def bracket_text(chars, neg, r):
+    """a bracket expression for the set of characters, spelled with variety: members as they are, as collating symbols or as
+    equivalence classes, and further members that no path of the tree holds ("[", ".", "=", "+": they change nothing for these
+    paths, but the scanners have to get across them - a literal "[" before a symbol naming "." spells out as "[.")"""
+    ms = [r.choice([c, c, "[.%s.]" % c, "[=%s=]" % c]) for c in chars]
+    extra = r.choice([[], [], [], ["["], ["[", "[...]"], ["[.=.]"], ["+"], ["[", "[.+.]"], ["[", "[===]"]])
+    body = extra + ms if r.random() < 0.6 else ms + extra
+    return "[" + ("^" if neg else "") + "".join(body) + "]"
+
+
+def show(a, ty, nl_alt=False, gnu_ops=False, spell=None):
     """concrete syntax; returns None when the syntax cannot express the AST.  nl_alt: write the alternations of a grep pattern as newlines;
     gnu_ops: write '+' and '?' of posix-basic (ed, sed) with GNU's \\+ and \\? instead of the intervals they stand for.
     Groups are numbered as they open (every pair of parentheses captures), for the back-references of the B nodes."""
@@ -119,6 +129,8 @@ def show(a, ty, nl_alt=False, gnu_ops=False):
         if t == "d":
             return "."
         if t in "kK":
+            if spell is not None:
+                return bracket_text(x[1], t == "K", spell)
             return "[" + ("^" if t == "K" else "") + "".join(x[1]) + "]"
         if t == "C":
             l, r = (atom(x[1]) if x[1][0] == "A" else go(x[1])), (atom(x[2]) if x[2][0] == "A" else go(x[2]))
@@ -208,7 +220,7 @@ def run(ctx):
                 alt2 = ("C", lead_ast, other) if lead_ast else other
                 ast = ("A", ast, alt2) if rng.random() < 0.5 else ("A", alt2, ast)
             ty = rng.choice(TYPES)
-            txt = show(ast, ty, nl_alt=rng.random() < 0.3, gnu_ops=rng.random() < 0.5)
+            txt = show(ast, ty, nl_alt=rng.random() < 0.3, gnu_ops=rng.random() < 0.5, spell=rng if rng.random() < 0.4 else None)
             if txt is None:
                 continue
             ci = rng.random() < 0.25
@@ -371,6 +383,13 @@ def collating_members(ctx, forest):
             ("posix-basic", b"-regex", b"cm/[[.a.]\\(]", [b"(", b"a"]), ("posix-basic", b"-regex", b"cm/[[.a.]\\1]", [b"a"]),
             ("emacs", b"-regex", b"cm/[[.a.]\\(]", [b"(", b"a"]), ("emacs", b"-regex", b"cm/[[=a=][]", [b"[", b"a"]),
             ("emacs", b"-regex", b"cm/[a-[.z.]]", [b"a", b"b", b"x", b"z"]), ("posix-extended", b"-regex", b"cm/[[.a.]-[.z.]]", [b"a", b"b", b"x", b"z"])]
+    # (ninth wave) a literal "[" member before a symbol naming "." or "=": spelled, the bracket expression holds "[." - the operators
+    # behind it are still operators
+    for n in (b"[[", b"[.", b".[", b"[+", b".+", b"{1}", b".a", b"[a", b"=a"):
+        open(os.path.join(d, n), "wb").close()
+    rows += [("posix-basic", b"-regex", b"cm/[[[...]]\\+", [b"[", b"[[", b"[.", b".["]), ("sed", b"-regex", b"cm/[[[.=.]]\\?a", [b"a", b"[a", b"=a"]),
+             ("grep", b"-regex", b"cm/\\([[[...]]\\|\\{1\\}\\)", [b"[", b"{1}"]), ("ed", b"-regex", b"cm/[[[...]]\\(a\\)\\+", [b".a", b"[a"]),
+             ("posix-extended", b"-regex", b"cm/[+--[=b=]]", [b"b"]), ("emacs", b"-regex", b"cm/[!--[=b=]x]", [b"(", b"b", b"x"])]
     for ty, flag, pat, want in rows:
         line = "find - %s %s" % (fw.hexs(forest.dir), xc.hexlist([b"cm", b"-mindepth", b"1", b"-regextype", ty.encode(), flag, pat, b"-print0"]))
         code, out, err = wc.decode_find(xc.run_impl([line])[0])
